@@ -243,6 +243,62 @@ def dir_output_case(args):
         sc.close()
 
 
+def linked_output_case(args):
+    """a task whose output is a symbolic link to an earlier file of the lineage (`ln -s $(realpath in) out` -- the "latest"
+    or "picked" link); the final output and its audit file are deleted and the workflow is run again, everything upstream
+    being taken from disk: the new record equals the old one up to IDs and times (the linking step is in the lineage, with
+    the record that lies next to the link), and the ancestors' audit files are untouched"""
+    seed, i = args
+    rng = random.Random(seed * 413158547 + i)
+    sp = t3.Spec(maxtasks=rng.randint(1, 3), bufsize=rng.choice([1, 128]))
+    L = rng.randint(1, 3)
+    paths = ["k%d.txt" % j for j in range(L)]
+    for p in paths:
+        sp.files[p] = p + "\n"
+    s = sp.src("src", paths)
+    a = sp.proc(RawProc("make", "cat {i:a} > {o:o} && echo made >> {o:o}", ins=[("a", [(s, "out")])], outs=[("o", "{i:a}.raw")]))
+    how = rng.choice(["ln -s $(realpath {i:a}) {o:o}", "cp {i:a} {o:o}.v1 && ln -s $(basename {o:o}).v1 {o:o}"])
+    b = sp.proc(RawProc("pick", how, ins=[("a", [(a, "o")])], outs=[("o", "{i:a}.picked")]))
+    sp.proc(RawProc("final", "cat {i:c} > {o:o}", ins=[("c", [(b, "o")])], outs=[("o", "{i:c}.final")]))
+    last = ".raw.picked.final"
+    sc = t3.Scratch()
+    try:
+        sc.plant(sp.files)
+        r1 = t3.run_impl(sc, sp)
+        problems = []
+        if r1["rc"] != 0:
+            return {"spec": sp.text(), "bufsize": sp.bufsize, "problems": [("unexpected-failure", r1["stderr"][-200:])], "ntasks": 3 * L, "rc": r1["rc"], "stderr": r1["stderr"][-200:], "yield": None, "wall": r1["wall"], "mode": "linked-output", "point": None}
+        first, disk = {}, {}
+        for p in paths:
+            v = r1["fs"].get(p + last + ".audit.json")
+            first[p] = t3.audit_norm(json.loads(v[1])) if v and v[0] == "f" else None
+            for anc in (".raw", ".raw.picked"):
+                w = r1["fs"].get(p + anc + ".audit.json")
+                disk[p + anc] = w[1] if w else None
+            for suffix in ("", ".audit.json"):
+                try:
+                    os.remove(os.path.join(sc.work, p + last + suffix))
+                except OSError:
+                    pass
+        r2 = t3.run_impl(sc, sp)
+        if r2["rc"] != 0:
+            problems.append(("resume-fails", "the resumed run exits %s: %s" % (r2["rc"], r2["stderr"][-200:])))
+        for p in paths:
+            v = r2["fs"].get(p + last + ".audit.json")
+            second = t3.audit_norm(json.loads(v[1])) if v and v[0] == "f" else None
+            if first[p] is None or second != first[p]:
+                problems.append(("lineage-differs", "the output of `pick` is a symbolic link; the record of %s after the resumed run differs from the uninterrupted run's: %s vs %s" % (
+                    p + last, json.dumps(second, sort_keys=True)[:400], json.dumps(first[p], sort_keys=True)[:400])))
+            for anc in (".raw", ".raw.picked"):
+                w = r2["fs"].get(p + anc + ".audit.json")
+                if (w[1] if w else None) != disk[p + anc]:
+                    problems.append(("ancestor-record-changed", "the audit file of %s changed on disk during the resumed run" % (p + anc)))
+        return {"spec": sp.text(), "bufsize": sp.bufsize, "problems": problems[:4], "ntasks": 3 * L, "rc": r2["rc"], "stderr": r2["stderr"][-200:], "yield": None, "wall": r1["wall"],
+                "mode": "linked-output", "point": None}
+    finally:
+        sc.close()
+
+
 def two_workflows_case(args):
     """one program, two Workflow objects set up in advance and run one after the other: the first produces (and tags) files, the
     second starts from them with a FileSource.  History: an earlier invocation stopped after the producer (RunTo) -- before
@@ -324,6 +380,7 @@ def run(rep, tier, seed):
     results = [r for r in t3.run_many(case, cases) if r]
     results += t3.run_many(two_workflows_case, [(seed, i) for i in range(6 if tier == "quick" else 80)])
     results += t3.run_many(dir_output_case, [(seed, i) for i in range(6 if tier == "quick" else 80)])
+    results += t3.run_many(linked_output_case, [(seed, i) for i in range(6 if tier == "quick" else 80)])
     found = t3.report_t3(rep, MODULE, proved, results, "T3 resumed histories: audit lineage vs the uninterrupted run")
     jl = json_roundtrip(rng, 300 if tier == "quick" else 5000)
     diffs, impl, model = vlib.t2_compare("json", jl)
